@@ -29,7 +29,7 @@ ASSUMPTIONS = [
     '(receiver metadata-free or both functions None, union/union)',
 ]
 ANCHORS = ['Table.merge', 'Table._fast_merge', 'Table._union_id_order', 'Table._intersect_id_order', 'prefer_self']
-REQUIRED = ['empty_axis_operand_cases', 'empty_axis_operand_merged', 'wide_universe_cases', 'fast_path_taken', 'general_path_taken', 'path_agreement_checked',
+REQUIRED = ['operand_list_reused', 'empty_axis_operand_cases', 'empty_axis_operand_merged', 'wide_universe_cases', 'fast_path_taken', 'general_path_taken', 'path_agreement_checked',
             'md_tap_calls_checked', 'empty_intersection_refused',
             'list_form', 'overlap_partial', 'overlap_disjoint',
             'overlap_nested', 'overlap_identical', 'mode_union_union',
@@ -232,6 +232,23 @@ def run_case(ctx, index):
                         'case=%r' % (desc,))
     fast = ctx.fast_calls[0] > n0
     ctx.count('fast_path_taken' if fast else 'general_path_taken')
+    if use_list:
+        # the caller's list is an input too: it comes back as it went in and
+        # can be used again for the same call
+        expect = [tb] + extra
+        if len(arg) != len(expect) or any(a is not b for a, b in
+                                          zip(arg, expect)):
+            raise Violation('C09/operand-list-modified', 'the list passed to '
+                            'merge now has %d entries (had %d); case=%r' %
+                            (len(arg), len(expect), desc))
+        if index % 2 == 0:
+            res_again = ta.merge(arg, sample=smode, observation=omode, **kw)
+            d = snap.diff(snap.snap(res_again), snap.snap(res))
+            if d:
+                raise Violation('C09/second-call-differs', 'merging the same '
+                                'list again gives another table: %s; '
+                                'case=%r' % ('; '.join(d), desc))
+            ctx.count('operand_list_reused')
     if emptied:
         ctx.count('empty_axis_operand_merged')
     s = snap.snap(res)
